@@ -13,7 +13,7 @@ pub struct ScenarioProp {
 /// which violation classes belong to which property
 pub fn class_property(class: &str) -> &'static str {
     match class {
-        "restored-sampler-differs" | "restart-fails-in-isolation" | "persisted-form-differs" => "C18",
+        "restored-sampler-differs" | "restart-fails-in-isolation" | "persisted-form-differs" | "sample-differs-after-restore" => "C18",
         "build-not-deterministic" => "C05",
         _ => "C17",
     }
@@ -107,8 +107,12 @@ impl ScenarioProp {
             r.add("runs_invalidated_by_nondeterministic_build", 1);
             r.found.retain(|f| f.class == "build-not-deterministic");
         }
-        let (mine, other): (Vec<Found>, Vec<Found>) =
-            r.found.drain(..).partition(|f| class_property(&f.class) == me);
+        // C17 quantifies over "separate processes (different hash seeds)": a table
+        // that depends on the builder's hash keys makes sampling results depend on
+        // them, so C17 reports it as well (C05 reports it as non-deterministic build)
+        let (mine, other): (Vec<Found>, Vec<Found>) = r.found.drain(..).partition(|f| {
+            class_property(&f.class) == me || (me == "C17" && f.class == "build-not-deterministic")
+        });
         if !other.is_empty() {
             r.add("findings_belonging_to_other_properties", other.len() as u64);
         }
